@@ -1,6 +1,7 @@
 import GA.M.Unpack
 import GA.M.Pack
 import GA.M.Export
+import GA.M.TreeDiff
 /-
   Line protocol for filesystem cases (DESIGN A.7).
     case    := op SP opts SP dest SP root SP umask SP "T" n node* SP "E" m entry*
@@ -358,5 +359,50 @@ def handleExport (ws : List String) : String :=
     let w : World := { fs := fs, root := [], umask := 0o022 }
     let (es, _) := (exportP c.src cs c.opts.uidMaps c.opts.gidMaps implicitT).run w
     "ok " ++ renderEntries es
+  | none => "bad-case"
+
+/-! ### tree diff cases:  changes <old tree> <new tree>
+    tree := N name mode isDir uid gid rdev size msec mnsec cap nchildren child… (pre-order) -/
+
+def pBool : P Bool := do
+  let t ← tok
+  match t with
+  | "1" => pure true
+  | "0" => pure false
+  | _ => failure
+
+def pTree : Nat → P TreeDiff.Info
+  | 0 => failure
+  | fuel+1 => do
+    let t ← tok
+    if t ≠ "N" then failure
+    let name ← pStr
+    let mode ← pNat
+    let isDir ← pBool
+    let uid ← pNat
+    let gid ← pNat
+    let rdev ← pNat
+    let size ← pNat
+    let msec ← pInt
+    let mnsec ← pNat
+    let cap ← pStr
+    let n ← pNat
+    let kids ← pMany (pTree fuel) n
+    pure (.mk name { mode, isDir, uid, gid, rdev, size, mtimeSec := msec, mtimeNsec := mnsec, cap } kids)
+
+def showKind : TreeDiff.CKind → String
+  | .modify => "C" | .add => "A" | .delete => "D"
+
+def handleChanges (ws : List String) : String :=
+  let p : P (TreeDiff.Info × TreeDiff.Info) := do
+    let _ ← tok
+    let o ← pTree ws.length
+    let n ← pTree ws.length
+    pure (o, n)
+  match p.run ws with
+  | some ((o, n), _) =>
+    let cs := TreeDiff.changes n o
+    "ok " ++ toString cs.length ++ String.join (cs.map (fun c =>
+      " " ++ showKind c.kind ++ showStr (47 :: joinSlash c.path)))
   | none => "bad-case"
 
